@@ -4,6 +4,8 @@
    behaviour [beh : node -> shard ids -> call index -> outcome]. *)
 From Coq Require Import Permutation.
 From Verif Require Import C05.Model C05.Spec C05.ProofsA C05.ProofsB C05.Proofs C05.ProofsC.
+From Verif Require Import Lib.Bytes C15.Model C05.StreamModel C05.ShowModel C05.ProofsStream C05.ProofsShow.
+From VerifGen Require Import Consts.
 Open Scope N_scope.
 
 (* mapShards: the per-node shard lists partition the query's shard set (Permutation +
@@ -176,6 +178,186 @@ Proof.
 Qed.
 Print Assumptions cut_stream_detected_refuted.
 
+(* ====================================================================================
+   Storage-read streams (MetaExecutor.ReadFilter / ReadGroup -> storeStreamReceiver.Recv).
+   All statements quantify over every sequence of messages [fs] (type byte, payload bytes of
+   any content, each shorter than MaxMessageSize) written by WriteTLV, and every number k of
+   bytes after which the connection is closed.
+   ==================================================================================== *)
+
+(* whatever arrives of the stream, Recv hands on the first m messages, intact and in order,
+   m and the kind of end being determined by the message lengths alone: m messages lie
+   completely before the cut; the end is an error iff the cut lies strictly inside a message
+   (repaired rule), a clean end otherwise - and always a clean end under the old rule *)
+Theorem recv_cut_exact :
+  forall (fixed : bool) (fs : list (N * bytes)) (k : N),
+  Forall (fun f => (Z.of_nat (length (snd f)) < max_message_size)%Z) fs ->
+  recv_stream fixed (cut k (enc_stream fs)) =
+  (firstn (fst (cut_frames (map plen fs) k)) fs, end_of fixed (snd (cut_frames (map plen fs) k))).
+Proof. exact recv_stream_cut. Qed.
+Print Assumptions recv_cut_exact.
+
+(* repaired rule: a cut strictly inside a message (its type byte delivered; its size or its
+   value incomplete) is an error *)
+Theorem cut_inside_message_is_error :
+  forall (fs : list (N * bytes)) (k : N),
+  Forall (fun f => (Z.of_nat (length (snd f)) < max_message_size)%Z) fs ->
+  snd (cut_frames (map plen fs) k) = true ->
+  snd (recv_stream true (cut k (enc_stream fs))) = EndErr.
+Proof. exact cut_inside_is_error. Qed.
+Print Assumptions cut_inside_message_is_error.
+
+(* messages delivered before the cut are delivered intact and in order *)
+Theorem delivered_is_prefix :
+  forall (fixed : bool) (fs : list (N * bytes)) (k : N),
+  Forall (fun f => (Z.of_nat (length (snd f)) < max_message_size)%Z) fs ->
+  exists m, (m <= length fs)%nat /\ fst (recv_stream fixed (cut k (enc_stream fs))) = firstn m fs.
+Proof. exact delivered_prefix. Qed.
+Print Assumptions delivered_is_prefix.
+
+(* with no cut the full sequence is delivered and the stream ends cleanly *)
+Theorem no_cut_delivers_all :
+  forall (fixed : bool) (fs : list (N * bytes)) (k : N),
+  Forall (fun f => (Z.of_nat (length (snd f)) < max_message_size)%Z) fs ->
+  N.of_nat (length (enc_stream fs)) <= k ->
+  recv_stream fixed (cut k (enc_stream fs)) = (fs, EndEOF).
+Proof. exact no_cut_full. Qed.
+Print Assumptions no_cut_delivers_all.
+
+(* repaired rule: a stream that ends without an error is complete - unless the connection
+   was closed exactly between two messages or before the first one (the open finding:
+   end of stream = EOF) *)
+Theorem clean_end_is_complete_or_boundary :
+  forall (fs : list (N * bytes)) (k : N),
+  Forall (fun f => (Z.of_nat (length (snd f)) < max_message_size)%Z) fs ->
+  snd (recv_stream true (cut k (enc_stream fs))) = EndEOF ->
+  fst (recv_stream true (cut k (enc_stream fs))) = fs \/
+  (boundary_cut (map plen fs) k = true /\ (k = 0 \/ In k (boundaries (map plen fs) 0))).
+Proof. exact clean_end_complete_or_boundary. Qed.
+Print Assumptions clean_end_is_complete_or_boundary.
+
+(* link to the executable spec of the receiver cases (Run.CRecv): prefix, and complete unless
+   an error is reported.  _partial: boundary cuts excluded *)
+Theorem recv_model_satisfies_spec_partial :
+  forall (fs : list (N * bytes)) (k : N),
+  Forall (fun f => (Z.of_nat (length (snd f)) < max_message_size)%Z) fs ->
+  boundary_cut (map plen fs) k = false ->
+  let '(got, e) := recv_stream true (cut k (enc_stream fs)) in recv_ok fs got e = true.
+Proof. exact recv_satisfies_spec_partial. Qed.
+Print Assumptions recv_model_satisfies_spec_partial.
+
+(* the step function of this model and C15's model of ReadTLV accept the same messages *)
+Theorem recv_step_is_read_tlv :
+  forall s t p r, recv_step s = RFrame t p r <-> read_tlv s = TlvOk t p r.
+Proof. exact recv_step_read_tlv. Qed.
+Print Assumptions recv_step_is_read_tlv.
+
+(* the whole call (response message of hdr bytes, then the stream; result set reader on top),
+   for every message list (any frames, also ill-formed sequences), every reader (ReadFilter /
+   ReadGroup) and every cut: a caller gets the reference answer or an error.
+   _partial: cuts exactly at a message boundary excluded (open finding) *)
+Theorem sread_model_satisfies_spec_partial :
+  forall (grp : bool) (hdr : N) (ms : list amsg) (k : N) (ref : list item),
+  fst (full_result grp ms) = ref ->
+  (hdr <= k -> boundary_cut (map m_len ms) (k - hdr) = false) ->
+  sread_ok ref (sread true grp hdr ms k) = true.
+Proof. exact sread_satisfies_spec_partial. Qed.
+Print Assumptions sread_model_satisfies_spec_partial.
+
+Theorem sread_cut_inside_message_is_error :
+  forall (grp : bool) (hdr : N) (ms : list amsg) (k : N),
+  hdr <= k -> snd (cut_frames (map m_len ms) (k - hdr)) = true ->
+  exists its, sread true grp hdr ms k = SStream its true.
+Proof. exact sread_cut_inside_is_error. Qed.
+Print Assumptions sread_cut_inside_message_is_error.
+
+(* before the fix: commit - every cut was taken for the end of the stream ... *)
+Theorem old_recv_accepts_every_cut :
+  forall (fs : list (N * bytes)) (k : N),
+  Forall (fun f => (Z.of_nat (length (snd f)) < max_message_size)%Z) fs ->
+  snd (recv_stream false (cut k (enc_stream fs))) = EndEOF.
+Proof. exact old_rule_accepts_every_cut. Qed.
+Print Assumptions old_recv_accepts_every_cut.
+
+(* ... so a stream cut in the middle of a message value gave a short result without error *)
+Theorem old_cut_inside_message_detected_refuted :
+  exists grp hdr ms k,
+    hdr <= k /\ boundary_cut (map m_len ms) (k - hdr) = false /\
+    sread_ok (fst (full_result grp ms)) (sread false grp hdr ms k) = false.
+Proof.
+  exists false, 11, w_msgs, (11 + 15). split; [discriminate|].
+  destruct old_sread_cut_inside_accepted as [H1 H2]. split; [exact H2|exact H1].
+Qed.
+Print Assumptions old_cut_inside_message_detected_refuted.
+
+(* open finding (same limitation as c05-stream-cut-at-frame-boundary): closed exactly between
+   two messages, the stream is taken for complete *)
+Theorem store_stream_boundary_cut_detected_refuted :
+  exists grp hdr ms k,
+    hdr <= k /\ boundary_cut (map m_len ms) (k - hdr) = true /\
+    sread_ok (fst (full_result grp ms)) (sread true grp hdr ms k) = false.
+Proof.
+  exists false, 11, w_msgs2, (11 + 29). split; [discriminate|].
+  destruct sread_boundary_cut_accepted as [H1 H2]. split; [exact H2|exact H1].
+Qed.
+Print Assumptions store_stream_boundary_cut_detected_refuted.
+
+(* ====================================================================================
+   SHOW fan-out (ClusterTSDBStore.MeasurementNames / TagKeys / TagValues over
+   MetaExecutor.ExecuteQuery).  All statements quantify over every coordinating node, node
+   list, node behaviour (serve | error reply | down), ownership layout and item data.
+   ==================================================================================== *)
+
+(* the listing is the union over the answering nodes: an item is listed iff some node that
+   served the request holds a shard containing it; it is sorted without duplicates; and no
+   error is ever returned *)
+Theorem show_is_union_of_answering_nodes :
+  forall local nodes beh data shards,
+  (forall x, In x (fst (show_fanout local nodes beh data shards)) <->
+     exists n s, (n = local \/ In n nodes) /\ beh n = NServe /\
+                 In s shards /\ owned_by s n = true /\ In x (data (sid s))) /\
+  Sorted.StronglySorted N.lt (fst (show_fanout local nodes beh data shards)) /\
+  snd (show_fanout local nodes beh data shards) = false.
+Proof.
+  intros. split; [intros x; apply show_union_lemma|]. split; [apply show_sorted|reflexivity].
+Qed.
+Print Assumptions show_is_union_of_answering_nodes.
+
+(* whenever every shard has an answering owner, the listing is the single-node listing *)
+Theorem show_complete_when_covered :
+  forall local nodes beh data shards,
+  covered local nodes beh shards = true ->
+  fst (show_fanout local nodes beh data shards) = show_reference data shards.
+Proof. exact show_complete_lemma. Qed.
+Print Assumptions show_complete_when_covered.
+
+(* nothing is invented in any case *)
+Theorem show_subset_of_reference :
+  forall local nodes beh data shards x,
+  In x (fst (show_fanout local nodes beh data shards)) -> In x (show_reference data shards).
+Proof. exact show_subset_lemma. Qed.
+Print Assumptions show_subset_of_reference.
+
+(* link to the executable spec (Run.CShow).  _partial: covered layouts only *)
+Theorem show_model_satisfies_spec_partial :
+  forall local nodes beh data shards,
+  covered local nodes beh shards = true ->
+  show_ok (show_reference data shards) (show_fanout local nodes beh data shards) = true.
+Proof. exact show_satisfies_spec_partial. Qed.
+Print Assumptions show_model_satisfies_spec_partial.
+
+(* open finding c05-show-fanout-drops-node-errors: a shard without an answering owner (its only
+   owner is down, or replies with an error): the listing lacks its items and no error is returned *)
+Theorem show_silently_incomplete_refuted :
+  exists local nodes beh data shards,
+    covered local nodes beh shards = false /\
+    show_ok (show_reference data shards) (show_fanout local nodes beh data shards) = false.
+Proof.
+  exists 1, [1; 2; 3], sw_beh, sw_data, sw_shards.
+  destruct show_incomplete_witness as [H1 [_ [_ [H2 _]]]]. split; assumption.
+Qed.
+Print Assumptions show_silently_incomplete_refuted.
+
 (* ---------- non-vacuity ---------- *)
 
 (* three nodes, replication 2, coordinator 1; node 2 down, node 3 serves: shard 2 is read
@@ -220,3 +402,41 @@ Example ex_truncated_group_still_read :
                                    mkSG 400 1000 None false [mkShard 2 [3]];
                                    mkSG 1000 1700 None true [mkShard 3 [2]]]) = [1; 2]%N.
 Proof. vm_compute. reflexivity. Qed.
+
+(* a stream of two messages (payloads of 3 and 2 bytes) cut after 14 bytes: the first message
+   arrives, the second is cut inside its size: error under the repaired rule, clean end before *)
+Example ex_recv_cut :
+  recv_stream true (cut 14 (enc_stream [(1, [7; 8; 9]); (1, [5; 6])])) = ([(1, [7; 8; 9])], EndErr) /\
+  recv_stream false (cut 14 (enc_stream [(1, [7; 8; 9]); (1, [5; 6])])) = ([(1, [7; 8; 9])], EndEOF) /\
+  cut_frames [3; 2] 14 = (1%nat, true) /\ boundary_cut [3; 2] 12 = true.
+Proof. repeat split; vm_compute; reflexivity. Qed.
+
+Example ex_small : Forall (fun f : N * bytes => (Z.of_nat (length (snd f)) < max_message_size)%Z) [(1, [7; 8; 9]); (1, [5; 6])].
+Proof. repeat constructor. Qed.
+
+(* ReadFilter: complete reading of the witness stream; the trailer carries no frames *)
+Example ex_sread_full :
+  sread true false 11 w_msgs2 (11 + 29 + 21 + 49) =
+  SStream [(0, 1, [10; 11]); (0, 2, [20])] false.
+Proof. vm_compute. reflexivity. Qed.
+
+(* ReadGroup: groups, series and points; a series frame before any group frame is an error *)
+Example ex_sread_group :
+  consume true [(1, 30, [FGroup 1; FSeries 1; FPoints [5]; FSeries 2; FPoints [6]; FGroup 2; FSeries 3; FPoints [7]])] EndEOF
+  = ([(1, 1, []); (0, 1, [5]); (0, 2, [6]); (1, 2, []); (0, 3, [7])], false) /\
+  snd (consume true [(1, 9, [FSeries 1])] EndEOF) = true.
+Proof. split; vm_compute; reflexivity. Qed.
+
+(* after two responses in a row without frames the third response is ErrStreamNoData, even
+   when it carries frames; the end of the stream instead is fine *)
+Example ex_no_data :
+  snd (consume false [(2, 5, []); (2, 5, []); (2, 5, [])] EndEOF) = true /\
+  consume false [(2, 5, []); (2, 5, []); (1, 9, [FSeries 1])] EndEOF = ([], true) /\
+  consume false [(2, 5, []); (2, 5, [])] EndEOF = ([], false).
+Proof. repeat split; vm_compute; reflexivity. Qed.
+
+(* SHOW: replicas cover the node that is down: complete; the witness layout is not covered *)
+Example ex_show_covered :
+  covered 1 [1; 2; 3] sw_beh [mkShard 1 [2; 3]; mkShard 2 [2; 3]] = true /\
+  show_fanout 1 [1; 2; 3] sw_beh sw_data [mkShard 1 [2; 3]; mkShard 2 [2; 3]] = ([10; 11; 20], false).
+Proof. split; vm_compute; reflexivity. Qed.
